@@ -1,5 +1,6 @@
 """C-accelerator side of the rules (clang AST of the build configuration)."""
 from ..core import AnalysisError
+from . import csem
 from ..cfront import (unit, ccfg, show, calls, c_assigned, c_reaching, c_resolve,
                       node_calls, nodes_calling, returns, is_var, is_field,
                       witness, E)
@@ -52,20 +53,21 @@ def struct_pyobject_fields(u, name):
 def clears_all(rep, rule, u, struct, clear_fn, traverse_fn):
     fields = struct_pyobject_fields(u, struct)
     rep.require(bool(fields), 'struct %s has no PyObject* members' % struct)
-    f = u.func(clear_fn)
-    g = ccfg(f)
+    ss = csem.returning(csem.S(u, clear_fn))
     for fld in fields:
-        p = pred_call('Py_CLEAR', lambda c, fld=fld: is_field(c.a[1][0], 'self', fld))
-        ok = g.must_pass_after(g.entry, p)
+        bad = [ps for ps in ss if not any(csem.args_of(e) == ['self->' + fld]
+                                          for e in csem.calls(ps, 'Py_CLEAR'))]
+        ok = bool(ss) and not bad
         ccheck(rep, rule, clear_fn, ok,
                'Py_CLEAR(self->%s) on every path' % fld if ok else
-               {'field_not_cleared': fld, 'path': witness(g, g.entry, p)},
-               construct='clear:' + fld, node=g.entry.succ[0][0] if g.entry.succ else None)
-    t = u.func(traverse_fn)
-    gt = ccfg(t)
+               {'field_not_cleared': fld,
+                'path': [repr(e)[:60] for e in bad[0].events][:8] if bad else []},
+               construct='clear:' + fld)
+    st = csem.S(u, traverse_fn)
     for fld in fields:
-        p = pred_call('Py_VISIT', lambda c, fld=fld: is_field(c.a[1][0], 'self', fld))
-        ccheck(rep, rule, traverse_fn, gt.must_pass_after(gt.entry, p) or any(p(n) for n in gt.nodes),
+        ok = any(csem.args_of(e) == ['self->' + fld]
+                 for ps in st for e in csem.calls(ps, 'Py_VISIT'))
+        ccheck(rep, rule, traverse_fn, ok,
                'GC traversal visits self->%s' % fld, construct='visit:' + fld)
     return fields
 
@@ -74,9 +76,7 @@ def inv2_c(rep, u, rule='INV-2'):
     fields = clears_all(rep, rule, u, 'LB', 'LB_clear', 'LB_traverse')
     ccheck(rep, rule, 'struct LB', set(fields) == set(CACHE_FIELDS),
            'cache members of struct LB: %s' % fields, construct='members')
-    f = u.func('LB_changed')
-    g = ccfg(f)
-    ccheck(rep, rule, 'LB_changed', g.must_pass_after(g.entry, pred_call('LB_clear')),
+    ccheck(rep, rule, 'LB_changed', csem.every_path_calls(u, 'LB_changed', 'LB_clear', ['self']),
            'LB_changed drops all three caches (LB_clear) on every path',
            construct='changed')
     lb = dict((n, fn) for n, fn, _ in u.method_table('LB_methods'))
@@ -88,17 +88,21 @@ def inv2_c(rep, u, rule='INV-2'):
            'VerifyingBase.changed is verify_changed (%s)' % vb.get('changed'),
            construct='table')
     clears_all(rep, rule, u, 'VB', 'VB_clear', 'VB_traverse')
-    f = u.func('VB_clear')
-    g = ccfg(f)
-    ccheck(rep, rule, 'VB_clear', g.must_pass_after(g.entry, pred_call('LB_clear')),
+    ccheck(rep, rule, 'VB_clear', csem.every_path_calls(u, 'VB_clear', 'LB_clear', []),
            'VB_clear also clears the inherited caches (LB_clear)', construct='base')
-    f = u.func('verify_changed')
-    g = ccfg(f)
-    first = g.entry
     ccheck(rep, rule, 'verify_changed',
-           g.must_pass_after(g.entry, pred_call('VB_clear')),
+           csem.every_path_calls(u, 'verify_changed', 'VB_clear', ['self']),
            'verify_changed clears caches and snapshots (VB_clear) on every path',
            construct='changed')
+
+
+WORKER_ARGS = {
+    '_lookup': ['self', 'required', 'provided', 'name', 'default_'],
+    '_lookup1': ['self', 'required', 'provided', 'name', 'default_'],
+    '_adapter_hook': ['self', 'provided', 'object', 'name', 'default_'],
+    '_lookupAll': ['self', 'required', 'provided'],
+    '_subscriptions': ['self', 'required', 'provided'],
+}
 
 
 def verify_first(rep, u, rule='INV-5'):
@@ -116,96 +120,20 @@ def verify_first(rep, u, rule='INV-5'):
             ccheck(rep, rule, fn, False, 'unknown entry point %s' % name,
                    construct='worker')
             continue
-        f = u.func(fn)
-        g = ccfg(f)
-        wn = nodes_calling(g, worker)
-        # the verify test: `_verify(self) < 0` with the T edge returning NULL
-        vt = [n for n in g.nodes if n.kind == 'test' and node_calls(n, '_verify')]
-        okv = False
-        detail = 'no `_verify(self) < 0` test'
-        if vt and wn:
-            v = vt[0]
-            e = v.e
-            okform = e.k == 'bin' and e.a[0] == '<' and e.a[2].k == 'const' and \
-                e.a[2].a[0] == 0
-            tnext = [m for m, lab in v.succ if lab == 'T']
-            okret = bool(tnext) and tnext[0].e is not None and \
-                tnext[0].e.k == 'return' and tnext[0].e.a[0] is not None and \
-                tnext[0].e.a[0].k == 'null'
-            okdom = all(g.dominated_by(w, lambda n: n is v) for w in wn)
-            okv = okform and okret and okdom
-            detail = ('_verify(self) < 0 -> return NULL (%s/%s) dominates the '
-                      'call of %s (%s)' % (okform, okret, worker, okdom))
-        elif not wn:
-            others = sorted({c.a[0] for n in g.nodes for c in node_calls(n)
-                             if isinstance(c.a[0], str)})
-            detail = ('does not call its worker %s directly (calls %s): the '
-                      'generation check is bypassed' % (worker, others))
-        ccheck(rep, rule, fn, okv, detail, construct='verify-first',
-               node=vt[0] if vt else None)
-        # worker gets the parsed arguments in the worker's order
-        if wn:
-            c = node_calls(wn[0], worker)[0]
-            args = [show(a) for a in c.a[1]]
-            want = {
-                '_lookup': ['self', 'required', 'provided', 'name', 'default_'],
-                '_lookup1': ['self', 'required', 'provided', 'name', 'default_'],
-                '_adapter_hook': ['self', 'provided', 'object', 'name', 'default_'],
-                '_lookupAll': ['self', 'required', 'provided'],
-                '_subscriptions': ['self', 'required', 'provided'],
-            }[worker]
-            ccheck(rep, rule, fn, args == want,
-                   '%s(%s) (required order %s)' % (worker, ', '.join(args), want),
-                   construct='worker-args', node=wn[0])
+        probs = csem.verify_guard(u, fn, worker, WORKER_ARGS[worker])
+        ccheck(rep, rule, fn, not probs,
+               '_verify(self) < 0 -> return NULL precedes the call of %s(%s)'
+               % (worker, ', '.join(WORKER_ARGS[worker])) if not probs else
+               {'problems': sorted(set(probs))[:3]}, construct='verify-first')
 
 
 def verify_compare(rep, u, rule='INV-5'):
-    f = u.func('_verify')
-    g = ccfg(f)
-    # every `return 0` is either after a changed() call or behind changed == 0
-    cmpn = [n for n in g.nodes if node_calls(n, 'PyObject_RichCompareBool')]
-    ok = len(cmpn) == 1
-    detail = 'comparisons: %d' % len(cmpn)
-    if ok:
-        c = node_calls(cmpn[0], 'PyObject_RichCompareBool')[0]
-        a, b, op = c.a[1]
-        opv = op.a[0] if op.k == 'const' else None
-        ra, rb = c_resolve(g, cmpn[0], a), c_resolve(g, cmpn[0], b)
-        sides = [show(ra), show(rb)]
-        okargs = 'self->_verify_generations' in sides
-        other = [x for x in (ra, rb) if show(x) != 'self->_verify_generations']
-        okgen = False
-        if okargs and len(other) == 1:
-            v = other[0]
-            okgen = v is not None and v.k == 'call' and v.a[0] == '_generations_tuple'
-            if okgen:
-                gn = [n for n in g.nodes if node_calls(n, '_generations_tuple')]
-                arg = c_resolve(g, gn[0], v.a[1][0]) if gn else v.a[1][0]
-                okgen = show(arg) == 'self->_verify_ro'
-        var = list(c_assigned(cmpn[0]))[0] if c_assigned(cmpn[0]) else None
-        # unchanged exit
-        unchanged = 0 if opv == 3 else (1 if opv == 2 else None)
-        chg = pred_call('PyObject_CallMethodObjArgs',
-                        lambda cc: len(cc.a[1]) > 1 and show(cc.a[1][1]) == 'strchanged')
-        okexit = unchanged is not None
-        if okexit:
-            for r in returns(g):
-                if r.e.a[0] is not None and r.e.a[0].k == 'const' and r.e.a[0].a[0] == 0:
-                    # paths reaching this return without changed()
-                    back = g.reach(r, avoid=chg, forward=False)
-                    if g.entry.id in back:
-                        # must be guarded by `changed == unchanged` T
-                        pr = [p for p, lab in r.pred]
-                        okg = all(p.kind == 'test' and p.e.k == 'bin' and p.e.a[0] == '=='
-                                  and is_var(p.e.a[1], var) and p.e.a[2].k == 'const'
-                                  and p.e.a[2].a[0] == unchanged for p in pr)
-                        okexit = okexit and okg
-        ok = okargs and okgen and okexit
-        detail = ('compares self->_verify_generations with '
-                  '_generations_tuple(self->_verify_ro) (%s/%s); returns without '
-                  'changed() only when they are equal (%s)' % (okargs, okgen, okexit))
-    ccheck(rep, rule, '_verify', ok, detail, construct='compare',
-           node=cmpn[0] if cmpn else None)
+    probs = csem.verify_semantics(u)
+    ccheck(rep, rule, '_verify', not probs,
+           'compares self->_verify_generations with '
+           '_generations_tuple(self->_verify_ro); returns without changed() only '
+           'when they are equal; errors propagate' if not probs else
+           {'problems': sorted(set(probs))[:3]}, construct='compare')
     # _generations_tuple covers every element
     f = u.func('_generations_tuple')
     g = ccfg(f)
@@ -247,62 +175,33 @@ def verify_compare(rep, u, rule='INV-5'):
 
 def fills(rep, u, rule='INV-4'):
     for fn, (meth, field, nargs) in UNCACHED.items():
-        f = u.func(fn)
-        g = ccfg(f)
-        sets = [n for n in g.nodes if node_calls(n, 'PyDict_SetItem')]
-        ok = len(sets) == 1
-        detail = 'PyDict_SetItem calls: %d' % len(sets)
-        if ok:
-            c = node_calls(sets[0], 'PyDict_SetItem')[0]
-            cache, key, val = c.a[1]
-            okv = False
-            vd = 'stored value %s' % show(val)
-            if is_var(val):
-                defs = c_reaching(g, sets[0], val.a[0])
-                okv = bool(defs) and all(
-                    v is not None and v.k == 'call' and
-                    v.a[0] == 'PyObject_CallMethodObjArgs' and
-                    show(v.a[1][1]) == meth for d, v in defs)
-                vd = 'value stored in the cache comes only from self.%s(...): %s' % (
-                    meth[3:], [show(v)[:70] if v is not None else 'param' for d, v in defs])
-                if okv:
-                    args = [show(a) for a in defs[0][1].a[1][2:]]
-                    want = ['required', 'provided'] + (['name'] if nargs == 3 else []) + ['NULL']
-                    okv = args == want
-                    vd += '; arguments %s' % args
-            # the container comes from the right cache field
-            okc = False
-            cd = show(cache)
-            if is_var(cache):
-                defs = c_reaching(g, sets[0], cache.a[0])
-                def from_field(v):
-                    if v is None or v.k != 'call':
-                        return False
-                    if v.a[0] == '_getcache':
-                        return field == '_cache' and [show(a) for a in v.a[1]] == \
-                            ['self', 'provided', 'name']
-                    if v.a[0] == '_subcache':
-                        return is_field(v.a[1][0], 'self', field) and show(v.a[1][1]) == 'provided'
-                    return False
-                okc = bool(defs) and all(from_field(v) for d, v in defs)
-                cd = [show(v)[:60] if v is not None else 'param' for d, v in defs]
-            # same container and key are used for the read
-            gets = [c2 for n in g.nodes for c2 in node_calls(n, 'PyDict_GetItem')]
-            okk = len(gets) == 1 and show(gets[0].a[1][0]) == show(cache) and \
-                show(gets[0].a[1][1]) == show(key)
-            ok = okv and okc and okk
-            detail = '%s; container %s (required self->%s); read and write use the same key `%s` (%s)' % (
-                vd, cd, field, show(key), okk)
-        ccheck(rep, rule, fn, ok, detail, construct='fill', node=sets[0] if sets else None)
+        probs, kinds = csem.cache_protocol(u, fn)
+        if not probs and not {'hit', 'miss', 'error'} <= kinds:
+            probs = ['path kinds %s' % sorted(kinds)]
+        ccheck(rep, rule, fn, not probs,
+               'probes self->%s[provided]%s with tuple(required)%s; a hit returns '
+               'the stored value; a miss calls self.%s(...) once and stores exactly '
+               'its result under the probed key' % (
+                   field, '[name]' if nargs == 3 else '',
+                   ' (the bare spec for one required)' if nargs == 3 else '', meth[4:])
+               if not probs else {'problems': sorted(set(probs))[:3]}, construct='fill')
     # _getcache reads the _cache field, keyed provided then name
-    f = u.func('_getcache')
-    g = ccfg(f)
-    sc = [c for n in g.nodes for c in node_calls(n, '_subcache')]
-    ok = len(sc) == 2 and show(sc[0].a[1][0]) == 'self->_cache' and \
-        show(sc[0].a[1][1]) == 'provided' and show(sc[1].a[1][1]) == 'name'
-    ccheck(rep, rule, '_getcache', ok,
-           'two-level cache self->_cache[provided][name]: %s' % [show(c) for c in sc],
-           construct='levels')
+    probs = []
+    n = 0
+    for ps in csem.returning(csem.S(u, '_getcache')):
+        sc = csem.calls(ps, '_subcache')
+        if csem.ret(ps) == 'NULL':
+            continue
+        n += 1
+        lvl1 = '_subcache(self->_cache, provided)'
+        named = ps.fact('name') and ps.fact('PyObject_IsTrue(name)')
+        want = ('_subcache(%s, name)' % lvl1) if named else lvl1
+        if csem.ret(ps) != want:
+            probs.append('%s name -> %s' % ('non-empty' if named else 'no/empty',
+                                            csem.ret(ps)[:70]))
+    ccheck(rep, rule, '_getcache', not probs and n >= 1,
+           'self->_cache[provided], and [name] below it for a non-empty name'
+           if not probs else {'levels': probs[:2]}, construct='levels')
 
 
 def c05(rep):
@@ -316,75 +215,41 @@ def c05(rep):
 def c06(rep):
     u = cu(rep)
     # R06.5 snapshot shape in C
-    f = u.func('verify_changed')
-    g = ccfg(f)
-    sl = [c for n in g.nodes for c in node_calls(n, 'PyTuple_GetSlice')]
-    ok = len(sl) == 1
-    detail = 'PyTuple_GetSlice calls: %d' % len(sl)
-    if ok:
-        a = sl[0].a[1]
-        ok = a[1].k == 'const' and a[1].a[0] == 1 and \
-            show(a[2]) == 'PyTuple_GET_SIZE(%s)' % show(a[0])
-        # the sliced tuple is tuple(registry.ro)
-        src = c_reaching(g, [n for n in g.nodes if node_calls(n, 'PyTuple_GetSlice')][0],
-                         a[0].a[0]) if is_var(a[0]) else []
-        oksrc = bool(src) and all(
-            v is not None and v.k == 'call' and v.a[0] == 'PyObject_CallFunctionObjArgs'
-            and 'PyTuple_Type' in show(v.a[1][0]) for d, v in src)
-        getro = [c for n in g.nodes for c in node_calls(n, 'PyObject_GetAttr')]
-        okattr = [show(c.a[1][1]) for c in getro] == ['str_registry', 'strro']
-        ok = ok and oksrc and okattr
-        detail = ('_verify_ro = tuple(self._registry.ro)[1:] (slice %s, source '
-                  '%s, attributes %s)' % (show(sl[0]), oksrc, okattr))
-    ccheck(rep, 'R06.5', 'verify_changed', ok, detail, construct='snapshot')
-    st = {}
-    for n in g.nodes:
-        if n.e is not None and n.e.k == 'expr' and n.e.a[0].k == 'assign' and \
-                n.e.a[0].a[1].k == 'field':
-            st[n.e.a[0].a[1].a[1]] = (n, n.e.a[0].a[2])
-    ok = '_verify_generations' in st and '_verify_ro' in st
-    if ok:
-        gv = c_resolve(g, st['_verify_generations'][0], st['_verify_generations'][1])
-        rv = st['_verify_ro'][1]
-        ok = gv is not None and gv.k == 'call' and gv.a[0] == '_generations_tuple' \
-            and show(gv.a[1][0]) == show(rv)
-    ccheck(rep, 'R06.5', 'verify_changed', ok,
-           'generations are taken from exactly the registries stored in '
-           '_verify_ro: %s' % {k: show(v[1]) for k, v in st.items()},
+    RO = 'PyObject_GetAttr(PyObject_GetAttr(self, str_registry), strro)'
+    T = 'PyObject_CallFunctionObjArgs(&PyTuple_Type, %s, NULL)' % RO
+    SL = 'PyTuple_GetSlice(%s, 1, PyTuple_GET_SIZE(%s))' % (T, T)
+    p_snap, p_gen = [], []
+    n = 0
+    for ps in csem.returning(csem.S(u, 'verify_changed')):
+        st = {show(e.e): show(e.val) for e in ps.stores()}
+        if csem.ret(ps) == 'NULL':
+            if any(v != 'NULL' for v in st.values()):
+                p_snap.append('a failing path leaves a partial snapshot')
+            continue
+        n += 1
+        if st.get('self->_verify_ro') != SL:
+            p_snap.append('_verify_ro = `%s`' % (st.get('self->_verify_ro') or 'unset')[:90])
+        if st.get('self->_verify_generations') != '_generations_tuple(%s)' % \
+                st.get('self->_verify_ro'):
+            p_gen.append('_verify_generations = `%s`'
+                         % (st.get('self->_verify_generations') or 'unset')[:90])
+    ccheck(rep, 'R06.5', 'verify_changed', not p_snap and n >= 1,
+           '_verify_ro = tuple(self._registry.ro)[1:]' if not p_snap else
+           {'problems': sorted(set(p_snap))[:3]}, construct='snapshot')
+    ccheck(rep, 'R06.5', 'verify_changed', not p_gen and n >= 1,
+           'generations are taken from exactly the registries stored in _verify_ro'
+           if not p_gen else {'problems': sorted(set(p_gen))[:3]},
            construct='generations')
     verify_first(rep, u, rule='R06.6')
     verify_compare(rep, u, rule='R06.6')
 
 
 def name_guard_c(rep, u, rule, fn, first_uses):
-    f = u.func(fn)
-    g = ccfg(f)
-    tests = [n for n in g.nodes if n.kind == 'test' and n.e.k == 'call'
-             and n.e.a[0] == 'PyUnicode_Check' and is_var(n.e.a[1][0], 'name')]
-    ok = len(tests) == 1
-    detail = 'no PyUnicode_Check(name) guard'
-    if ok:
-        t = tests[0]
-        fnext = [m for m, lab in t.succ if lab == 'F']
-        okraise = bool(fnext) and bool(node_calls(fnext[0], 'PyErr_SetString')) and \
-            'PyExc_ValueError' in show(fnext[0].e)
-        okret = False
-        if okraise:
-            nn = [m for m, lab in fnext[0].succ]
-            okret = bool(nn) and nn[0].e is not None and nn[0].e.k == 'return' and \
-                nn[0].e.a[0].k == 'null'
-        uses = [n for n in g.nodes for nm in first_uses if node_calls(n, nm)]
-        # the accepting way past the guard: name == NULL or the check is true
-        def guard(n):
-            return n is t
-        namenull = [n for n in g.nodes if n.kind == 'test' and is_var(n.e, 'name')]
-        okdom = bool(uses) and all(
-            g.dominated_by(x, lambda n: n is t or n in namenull) for x in uses)
-        ok = okraise and okret and okdom
-        detail = ('non-str name raises ValueError and returns NULL (%s/%s) before '
-                  'any of %s (%s)' % (okraise, okret, first_uses, okdom))
-    ccheck(rep, rule, fn, ok, detail, construct='name-guard',
-           node=tests[0] if tests else None)
+    probs = csem.name_guard(u, fn, first_uses)
+    ccheck(rep, rule, fn, not probs,
+           'non-str name raises ValueError and returns NULL before any of %s'
+           % first_uses if not probs else {'problems': sorted(set(probs))[:3]},
+           construct='name-guard')
 
 
 def c08(rep):
@@ -392,115 +257,152 @@ def c08(rep):
     name_guard_c(rep, u, 'R08.3', '_lookup', ['_getcache', 'PySequence_Tuple'])
     name_guard_c(rep, u, 'R08.3', '_lookup1', ['_getcache', '_lookup'])
     name_guard_c(rep, u, 'R08.3', '_adapter_hook', ['providedBy', '_lookup1'])
-    # R08.2 key agreement in C
-    f = u.func('_lookup')
-    g = ccfg(f)
-    kd = [(n, v) for n in g.nodes for k, v in c_assigned(n).items()
-          if k == 'key' and v is not None and v.k != 'null']
-    ok = len(kd) == 2
-    detail = 'key definitions: %s' % [show(v) for n, v in kd]
-    if ok:
-        one = [n for n, v in kd if show(v) == 'PyTuple_GET_ITEM(required, 0)']
-        tup = [n for n, v in kd if show(v) == 'required']
-        ok = len(one) == 1 and len(tup) == 1
-        if ok:
-            t = [p for p, lab in one[0].pred]
-            ok = len(t) == 1 and t[0].kind == 'test' and \
-                show(t[0].e) == '(PyTuple_GET_SIZE(required) == 1)' and \
-                any(m is one[0] and lab == 'T' for m, lab in t[0].succ) and \
-                any(m is tup[0] and lab == 'F' for m, lab in t[0].succ)
-    ccheck(rep, 'R08.2', '_lookup', ok,
-           'key = required[0] iff PyTuple_GET_SIZE(required) == 1 else the tuple; %s'
-           % detail, construct='keys')
-    f = u.func('_lookup1')
-    g = ccfg(f)
-    gets = [c for n in g.nodes for c in node_calls(n, 'PyDict_GetItem')]
-    ok = len(gets) == 1 and [show(a) for a in gets[0].a[1]] == ['cache', 'required']
-    cd = [v for n in g.nodes for k, v in c_assigned(n).items() if k == 'cache' and v is not None]
-    ok = ok and len(cd) == 1 and show(cd[0]) == '_getcache(self, provided, name)'
-    ccheck(rep, 'R08.2', '_lookup1', ok,
-           'probes _getcache(self, provided, name) with the bare specification',
-           construct='probe')
-    # miss -> _lookup(self, (required,), provided, name, default_)
-    dl = [c for n in g.nodes for c in node_calls(n, '_lookup')]
-    ok = len(dl) == 1 and [show(a) for a in dl[0].a[1]][2:] == ['provided', 'name', 'default_'] \
-        and show(dl[0].a[1][0]) == 'self'
-    if ok:
-        tup = dl[0].a[1][1]
-        seti = [c for n in g.nodes for c in node_calls(n, 'PyTuple_SET_ITEM')]
-        ok = is_var(tup) and len(seti) == 1 and \
-            [show(a) for a in seti[0].a[1]] == [tup.a[0], '0', 'required']
-        new = [v for n in g.nodes for k, v in c_assigned(n).items()
-               if k == tup.a[0] and v is not None]
-        ok = ok and len(new) == 1 and show(new[0]) == 'PyTuple_New(1)'
-    ccheck(rep, 'R08.1', '_lookup1', ok,
-           'miss delegates to _lookup(self, (required,), provided, name, default_)',
-           construct='delegate')
-    # hit table of _lookup1: None && default given -> default
-    hit = [n for n in g.nodes if n.kind == 'test' and show(n.e) == '(result == Py_None)']
-    ok = len(hit) == 1
-    if ok:
-        t2 = [m for m, lab in hit[0].succ if lab == 'T']
-        ok = bool(t2) and t2[0].kind == 'test' and show(t2[0].e) == '(default_ != NULL)'
-        if ok:
-            st = [m for m, lab in t2[0].succ if lab == 'T']
-            ok = bool(st) and show(st[0].e) == 'result = default_'
-    ccheck(rep, 'R08.5', '_lookup1', ok,
-           'cached None with a default -> the default; otherwise the cached value',
-           construct='table')
+    # R08.2 key agreement in C (part of the memoisation protocol)
+    probs, kinds = csem.cache_protocol(u, '_lookup')
+    kp = [p for p in probs if 'key' in p]
+    ccheck(rep, 'R08.2', '_lookup', not kp and 'hit' in kinds,
+           'key = required[0] iff PyTuple_GET_SIZE(required) == 1 else the tuple; '
+           'read and write use the same key' if not kp else
+           {'problems': sorted(set(kp))[:3]}, construct='keys')
+    # _lookup1
+    C = '_getcache(self, provided, name)'
+    G = 'PyDict_GetItem(%s, required)' % C
+    p_probe, p_del, p_tab = [], [], []
+    kinds = set()
+    for ps in csem.returning(csem.S(u, '_lookup1')):
+        r = csem.ret(ps)
+        gets = csem.calls(ps, 'PyDict_GetItem')
+        dl = csem.calls(ps, '_lookup')
+        if not gets:
+            if r != 'NULL' or dl:
+                p_probe.append('returns `%s` without probing the cache' % r[:40])
+            continue
+        if [show(g.e) for g in gets] != [G]:
+            p_probe.append('probes %s' % [show(g.e)[:60] for g in gets])
+            continue
+        hit = ps.fact(G)
+        if hit:
+            none, dflt = ps.fact('(%s == Py_None)' % G), ps.fact('default_')
+            if none is None or (none and dflt is None):
+                p_tab.append('cached None / default not examined')
+                continue
+            want = 'default_' if (none and dflt) else G
+            kinds.add('hit-default' if want == 'default_' else 'hit')
+            if r != want or dl:
+                p_tab.append('hit returns `%s` (required `%s`)' % (r[:50], want[:50]))
+        else:
+            if r == 'NULL' and not dl:
+                continue
+            kinds.add('miss')
+            if len(dl) != 1:
+                p_del.append('miss calls _lookup %d times' % len(dl))
+                continue
+            a = csem.args_of(dl[0])
+            packed = a[1] == 'PyTuple_Pack(1, required)' or (
+                a[1] == 'PyTuple_New(1)' and any(
+                    csem.args_of(e) == ['PyTuple_New(1)', '0', 'required']
+                    and ps.index(e) < ps.index(dl[0])
+                    for e in csem.calls(ps, 'PyTuple_SET_ITEM')))
+            if not packed or [a[0]] + a[2:] != ['self', 'provided', 'name', 'default_']:
+                p_del.append('miss delegates to _lookup(%s)' % ', '.join(a)[:80])
+            if r != show(dl[0].e):
+                p_del.append('miss returns `%s`' % r[:50])
+    ccheck(rep, 'R08.2', '_lookup1', not p_probe,
+           'probes _getcache(self, provided, name) with the bare specification'
+           if not p_probe else {'problems': sorted(set(p_probe))[:3]}, construct='probe')
+    ccheck(rep, 'R08.1', '_lookup1', not p_del and 'miss' in kinds,
+           'miss delegates to _lookup(self, (required,), provided, name, default_)'
+           if not p_del else {'problems': sorted(set(p_del))[:3]}, construct='delegate')
+    ccheck(rep, 'R08.5', '_lookup1', not p_tab and {'hit', 'hit-default'} <= kinds,
+           'cached None with a default -> the default; otherwise the cached value'
+           if not p_tab else {'problems': sorted(set(p_tab))[:3]}, construct='table')
     # _adapter_hook
-    f = u.func('_adapter_hook')
-    g = ccfg(f)
-    rq = [v for n in g.nodes for k, v in c_assigned(n).items() if k == 'required' and v is not None]
-    okr = len(rq) == 1 and show(rq[0]) == 'providedBy(module, object)'
-    l1 = [c for n in g.nodes for c in node_calls(n, '_lookup1')]
-    okl = len(l1) == 1 and [show(a) for a in l1[0].a[1]] == \
-        ['self', 'required', 'provided', 'name', 'Py_None']
-    ccheck(rep, 'R08.1', '_adapter_hook', okr and okl,
+    RQ = 'providedBy(_get_module(Py_TYPE(self)), object)'
+    L1 = '_lookup1(self, %s, provided, name, Py_None)' % RQ
+    SELF = 'PyObject_GetAttr(object, str__self__)'
+    p_del, p_call, p_res = [], [], []
+    kinds = set()
+    for ps in csem.returning(csem.S(u, '_adapter_hook')):
+        r = csem.ret(ps)
+        l1 = csem.calls(ps, '_lookup1')
+        fc = [e for e in csem.calls(ps, 'PyObject_CallFunctionObjArgs')]
+        if not l1:
+            if r != 'NULL' or fc:
+                p_del.append('returns `%s` without a lookup' % r[:40])
+            continue
+        if [show(e.e) for e in l1] != [L1]:
+            p_del.append('looks up %s' % [show(e.e)[:80] for e in l1])
+            continue
+        found = ps.fact(L1)
+        if not found:
+            if r != 'NULL':
+                p_res.append('failed lookup returns %s' % r[:40])
+            continue
+        none = ps.fact('(%s == Py_None)' % L1)
+        if none is None:
+            p_call.append('factory not compared with None')
+            continue
+        if none:
+            if fc:
+                p_call.append('calls a None factory')
+            res = L1
+        else:
+            sup = ps.fact('PyObject_TypeCheck(object, &PySuper_Type)')
+            if sup is None:
+                p_call.append('super objects not recognised')
+                continue
+            if sup and ps.fact(SELF) is False:
+                if r != 'NULL':
+                    p_res.append('failed __self__ read returns %s' % r[:40])
+                continue
+            arg = SELF if sup else 'object'
+            want = 'PyObject_CallFunctionObjArgs(%s, %s, NULL)' % (L1, arg)
+            kinds.add('super' if sup else 'plain')
+            if [show(e.e) for e in fc] != [want]:
+                p_call.append('factory call %s (required %s)' % (
+                    [show(e.e)[-60:] for e in fc], want[-40:]))
+                continue
+            if any(csem.args_of(e)[1:2] == ['str__self__'] and
+                   ps.index(e) < ps.index(l1[0]) for e in csem.calls(ps, 'PyObject_GetAttr')):
+                p_call.append('the super proxy is unwrapped before the lookup')
+            res = want
+            if ps.fact(res) is False:
+                if r != 'NULL' and r != res:
+                    p_res.append('failed factory returns %s' % r[:40])
+                continue
+            none = ps.fact('(%s == Py_None)' % res)
+            if none is None:
+                p_res.append('factory result not compared with None')
+                continue
+        dflt = ps.fact('default_')
+        if none and dflt is None:
+            p_res.append('None result: default not consulted')
+            continue
+        want_r = 'default_' if (none and dflt) else res
+        kinds.add('default' if want_r == 'default_' else 'value')
+        same = ps.fact('(default_ == %s)' % res)
+        if same and r == res:
+            continue        # the default is the None that was found
+        if r != want_r:
+            p_res.append('returns `%s` (required `%s`)' % (r[-50:], want_r[-50:]))
+    ccheck(rep, 'R08.1', '_adapter_hook', not p_del,
            'looks up (providedBy(object),) via _lookup1(self, required, provided, '
-           'name, None): %s / %s' % ([show(v) for v in rq], [show(c) for c in l1]),
+           'name, None)' if not p_del else {'problems': sorted(set(p_del))[:3]},
            construct='delegate')
-    fc = [n for n in g.nodes if node_calls(n, 'PyObject_CallFunctionObjArgs')]
-    ok = len(fc) == 1
-    detail = 'factory calls: %d' % len(fc)
-    if ok:
-        c = node_calls(fc[0], 'PyObject_CallFunctionObjArgs')[0]
-        okargs = [show(a) for a in c.a[1]] == ['factory', 'object', 'NULL']
-        guard = [n for n in g.nodes if n.kind == 'test' and show(n.e) == '(factory != Py_None)']
-        okg = len(guard) == 1 and g.dominated_by(fc[0], lambda n: n is guard[0]) and \
-            fc[0].id in g.reach([m for m, lab in guard[0].succ if lab == 'T'][0],
-                                include_start=True)
-        sup = [n for n in g.nodes if n.kind == 'test' and
-               show(n.e) == 'PyObject_TypeCheck(object, &PySuper_Type)']
-        oks = len(sup) == 1
-        if oks:
-            ga = [n for n in g.nodes for k, v in c_assigned(n).items()
-                  if v is not None and show(v) == 'PyObject_GetAttr(object, str__self__)']
-            re = [n for n in g.nodes if n.e is not None and show(n.e) == 'object = self']
-            oks = len(ga) == 1 and len(re) == 1 and \
-                g.dominated_by(re[0], lambda n: n is sup[0]) and \
-                fc[0].id in g.reach(re[0]) and \
-                all(re[0].id in g.reach(x) for x in nodes_calling(g, '_lookup1'))
-        ok = okargs and okg and oks
-        detail = ('factory(object) (%s) only when factory is not None (%s); a '
-                  'super proxy is replaced by its __self__ after the lookup and '
-                  'before the call (%s)' % (okargs, okg, oks))
-    ccheck(rep, 'R08.5', '_adapter_hook', ok, detail, construct='call')
-    # result: NULL/non-None returned, None -> default when given
-    rets = returns(g)
-    vals = sorted(show(r.e.a[0]) for r in rets)
-    okv = set(vals) <= {'NULL', 'result', 'default_'} and 'default_' in vals and 'result' in vals
-    dn = [r for r in rets if show(r.e.a[0]) == 'default_']
-    okd = all(any(p.kind != 'test' for p, l in r.pred) for r in dn)
-    ccheck(rep, 'R08.5', '_adapter_hook', okv,
-           'returns the factory result when it is not None, else the default '
-           '(or None): %s' % vals, construct='result')
+    ccheck(rep, 'R08.5', '_adapter_hook', not p_call and {'super', 'plain'} <= kinds,
+           'factory(object) only when factory is not None; a super proxy is '
+           'replaced by its __self__ after the lookup and before the call'
+           if not p_call else {'problems': sorted(set(p_call))[:3]}, construct='call')
+    ccheck(rep, 'R08.5', '_adapter_hook', not p_res and {'default', 'value'} <= kinds,
+           'returns the factory result when it is not None, else the default (or '
+           'None)' if not p_res else {'problems': sorted(set(p_res))[:3]},
+           construct='result')
     # queryAdapter(object, provided) -> _adapter_hook(provided, object)
     for fn in ('LB_queryAdapter', 'LB_adapter_hook'):
         f = u.func(fn)
         g = ccfg(f)
         kw = [n.e.a[2] for n in g.nodes if n.e is not None and n.e.k == 'decl'
-              and n.e.a[0] == 'kwlist']
+              and n.e.a[2] is not None and n.e.a[2].k == 'initlist']
         names = [x.a[0] for x in kw[0].a[0] if x is not None and x.k == 'str'] if kw else []
         pa = [c for n in g.nodes for c in node_calls(n, 'PyArg_ParseTupleAndKeywords')]
         outs = [show(a)[1:] for a in pa[0].a[1][4:]] if pa else []
@@ -508,9 +410,9 @@ def c08(rep):
             else ['provided', 'object', 'name', 'default']
         okn = names == want_names and \
             [o.rstrip('_') for o in outs] == [w for w in want_names]
-        c = [c for n in g.nodes for c in node_calls(n, '_adapter_hook')]
-        okc = len(c) == 1 and [show(a) for a in c[0].a[1]] == \
-            ['self', 'provided', 'object', 'name', 'default_']
+        cs = [e for ps in csem.returning(csem.S(u, fn)) for e in csem.calls(ps, '_adapter_hook')]
+        okc = bool(cs) and all(csem.args_of(e) ==
+                               ['self', 'provided', 'object', 'name', 'default_'] for e in cs)
         ccheck(rep, 'R08.1', fn, okn and okc,
                'keywords %s bound to %s; worker called as _adapter_hook(self, '
                'provided, object, name, default_) (%s)' % (names, outs, okc),
@@ -519,26 +421,13 @@ def c08(rep):
 
 
 def lookup_default_c(rep, u, rule):
-    """_lookup: the substitution None -> default happens after the cache
-    store, returns default_ iff result is None and a default was given."""
-    f = u.func('_lookup')
-    g = ccfg(f)
-    rd = [r for r in returns(g) if show(r.e.a[0]) == 'default_']
-    ok = len(rd) == 1
-    detail = '`return default_` sites: %d' % len(rd)
-    if ok:
-        r = rd[0]
-        t1 = [n for n in g.nodes if n.kind == 'test' and show(n.e) == '(result == Py_None)']
-        t2 = [n for n in g.nodes if n.kind == 'test' and show(n.e) == '(default_ != NULL)']
-        okg = len(t1) == 1 and len(t2) == 1 and \
-            g.dominated_by(r, lambda n: n is t1[0]) and g.dominated_by(r, lambda n: n is t2[0])
-        sets = nodes_calling(g, 'PyDict_SetItem')
-        # no path from the None-test back to the store (substitution after store)
-        okafter = okg and all(s.id not in g.reach(t1[0]) for s in sets)
-        ok = okg and okafter
-        detail = ('default_ returned iff result == Py_None and default_ != NULL '
-                  '(%s); the test comes after the cache store (%s)' % (okg, okafter))
-    ccheck(rep, rule, '_lookup', ok, detail, construct='default')
+    """_lookup: the substitution None -> default applies to the returned
+    value only (never to what is stored), iff a default was given."""
+    probs = csem.lookup_result(u)
+    ccheck(rep, rule, '_lookup', not probs,
+           'default_ returned iff the looked-up value is None and default_ != '
+           'NULL; otherwise the looked-up value; the default is never stored'
+           if not probs else {'problems': sorted(set(probs))[:3]}, construct='default')
 
 
 def c04(rep):
@@ -548,60 +437,75 @@ def c04(rep):
 
 
 def fills_one(rep, u, rule):
-    f = u.func('_lookup')
-    g = ccfg(f)
-    sets = [n for n in g.nodes if node_calls(n, 'PyDict_SetItem')]
-    ok = len(sets) == 1
-    detail = 'stores: %d' % len(sets)
-    if ok:
-        c = node_calls(sets[0], 'PyDict_SetItem')[0]
-        val = c.a[1][2]
-        defs = c_reaching(g, sets[0], val.a[0]) if is_var(val) else []
-        ok = bool(defs) and all(
-            v is not None and v.k == 'call' and v.a[0] == 'PyObject_CallMethodObjArgs'
-            and show(v.a[1][1]) == 'str_uncached_lookup' for d, v in defs)
-        detail = ('the negative/positive cache stores exactly what '
-                  '_uncached_lookup returned (never the caller\'s default): %s'
-                  % [show(v)[:60] if v is not None else 'param' for d, v in defs])
-    ccheck(rep, rule, '_lookup', ok, detail, construct='stored-value',
-           node=sets[0] if sets else None)
+    probs, kinds = csem.cache_protocol(u, '_lookup')
+    ccheck(rep, rule, '_lookup', not probs and 'miss' in kinds,
+           'the negative/positive cache stores exactly what _uncached_lookup '
+           'returned (never the caller\'s default)' if not probs else
+           {'problems': sorted(set(probs))[:3]}, construct='stored-value')
 
 
 def c02(rep):
     """R02.5 (C): the C query methods read only the implied set."""
     u = cu(rep)
-    f = u.func('SB_extends')
-    g = ccfg(f)
-    impl = [v for n in g.nodes for k, v in c_assigned(n).items() if k == 'implied' and v is not None]
-    okimpl = len(impl) == 1 and show(impl[0]) == 'self->_implied'
-    tests = [n for n in g.nodes if n.kind == 'test' and
-             show(n.e) == '(PyDict_GetItem(implied, other) != NULL)']
-    ok = okimpl and len(tests) == 1
-    if ok:
-        t = tests[0]
-        tt = [m for m, lab in t.succ if lab == 'T']
-        ff = [m for m, lab in t.succ if lab == 'F']
-        ok = bool(tt) and bool(ff) and show(tt[0].e) == 'return Py_True' and \
-            show(ff[0].e) == 'return Py_False'
-    ccheck(rep, 'R02.5', 'SB_extends', ok,
-           'isOrExtends(other) = other is a key of self->_implied', construct='membership')
-    for fn, src in (('SB_providedBy', 'providedBy(module, ob)'),
-                    ('SB_implementedBy', 'implementedBy(module, cls)')):
-        f = u.func(fn)
-        g = ccfg(f)
-        d = [v for n in g.nodes for k, v in c_assigned(n).items() if k == 'decl' and v is not None]
-        okd = len(d) == 1 and show(d[0]) == src
-        items = sorted(show(v) for n in g.nodes for k, v in c_assigned(n).items()
-                       if k == 'item' and v is not None)
-        okitems = items == sorted(['SB_extends(decl, self)',
-                                   'PyObject_CallFunctionObjArgs(decl, self, NULL)'])
-        rets = sorted(show(r.e.a[0]) for r in returns(g))
-        ccheck(rep, 'R02.5', fn, okd and okitems and rets == ['NULL', 'item'],
-               'tests membership of self in the implied set of %s (direct for '
-               'specification objects, by calling the declaration otherwise): %s'
-               % (src, items), construct='membership')
+    probs = []
+    kinds = set()
+    M = 'PyDict_GetItem(self->_implied, other)'
+    for ps in csem.returning(csem.S(u, 'SB_extends')):
+        impl = ps.fact('self->_implied')
+        r = csem.ret(ps)
+        if impl is False:
+            if r != 'NULL':
+                probs.append('no implied set: returns %s' % r)
+            continue
+        m = ps.fact(M)
+        if m is None:
+            probs.append('returns `%s` without testing membership of other in '
+                         'self->_implied' % r[:60])
+            continue
+        kinds.add(m)
+        if r != ('Py_True' if m else 'Py_False'):
+            probs.append('%s returns %s' % ('member' if m else 'non-member', r[:40]))
+        extra = [k for k, t, p in ps.order if k not in (M, 'self->_implied')]
+        if extra:
+            probs.append('also depends on `%s`' % extra[0][:60])
+    ccheck(rep, 'R02.5', 'SB_extends', not probs and kinds == {True, False},
+           'isOrExtends(other) = other is a key of self->_implied' if not probs else
+           {'problems': sorted(set(probs))[:3]}, construct='membership')
+    for fn, src, arg in (('SB_providedBy', 'providedBy', 'ob'),
+                         ('SB_implementedBy', 'implementedBy', 'cls')):
+        D = '%s(_get_module(Py_TYPE(self)), %s)' % (src, arg)
+        TC = 'PyObject_TypeCheck(%s, _get_specification_base_class(Py_TYPE(self)))' % D
+        probs = []
+        kinds = set()
+        for ps in csem.returning(csem.S(u, fn)):
+            d = ps.fact(D)
+            r = csem.ret(ps)
+            if d is None:
+                probs.append('returns `%s` without computing %s(module, %s)'
+                             % (r[:40], src, arg))
+            elif not d:
+                if r != 'NULL':
+                    probs.append('failed declaration lookup returns %s' % r[:40])
+            else:
+                tc = ps.fact(TC)
+                if tc is None:
+                    probs.append('declaration kind not tested')
+                    continue
+                kinds.add(tc)
+                want = 'SB_extends(%s, self)' % D if tc else \
+                    'PyObject_CallFunctionObjArgs(%s, self, NULL)' % D
+                if r != want:
+                    probs.append('%s declaration: returns `%s`' % (
+                        'specification' if tc else 'foreign', r[:70]))
+        ccheck(rep, 'R02.5', fn, not probs and kinds == {True, False},
+               'tests membership of self in the implied set of %s(module, %s) '
+               '(direct for specification objects, by calling the declaration '
+               'otherwise)' % (src, arg) if not probs else
+               {'problems': sorted(set(probs))[:3]}, construct='membership')
     tbl = dict((n, fn) for n, fn, _ in u.method_table('SB_methods'))
     ccheck(rep, 'R02.5', 'SB_methods',
            tbl.get('isOrExtends') == 'SB_extends' and tbl.get('providedBy') == 'SB_providedBy'
            and tbl.get('implementedBy') == 'SB_implementedBy',
            'method table %s' % tbl, construct='table')
+
+
